@@ -148,6 +148,11 @@ class RefEngine(Engine):
                 if isinstance(a, ast.Starred):
                     continue
                 av = p.ev(a)
+                if isinstance(av, TupV) and av.kind == 'tuple' and len(av.items) == 4 and not is_raw_shape(av) \
+                        and int_term(av.items[0]) is not None and isinstance(a, ast.Tuple):
+                    # a hand-built raw mpf with an unmodelled component (e.g. an integer computed by an unmodelled
+                    # function as mantissa): complete it with fresh integers and try to prove it canonical
+                    av = TupV([x if int_term(x) is not None else IntV(fresh_int('lit')) for x in av.items])
                 if isinstance(av, TupV) and is_raw_shape(av):
                     ok = prove_refinement(st, av, None)
                     if not ok:
@@ -275,6 +280,9 @@ def check_value(eng, st, v, prec0, want_bits, path=''):
     if isinstance(v, (IntV, BoolV)):
         return []
     if isinstance(v, TupV):
+        if v.kind == 'tuple' and len(v.items) == 4 and int_term(v.items[0]) is not None and not is_raw_shape(v):
+            # (sign, x, y, z) built by hand from components of opaque values: nothing says it is canonical
+            return ['%shand-built raw mpf with opaque components is not proved canonical' % path]
         if is_raw_shape(v):
             ok = prove_refinement(st, v, prec0 if want_bits else None)
             return [] if ok else ['%stuple %s not proved %s' % (
